@@ -540,7 +540,7 @@ func first(s []string) string {
 func c36() {
 	r := vk.Start("C36", "exploration")
 	// every case costs 2 (ssh) to 6 (docker) process starts of this binary
-	n := r.Pick(120, 2400)
+	n := r.Pick(120, 1200)
 	cases := c36Generate(r, n, r.Pick(16, len(hostileLeads)))
 	scratch := r.Scratch()
 	fakeDir := filepath.Join(scratch, "fakebin")
